@@ -16,7 +16,7 @@ PAYLOADS = [b'', b'x', b'line of text', b'-- a/file', b'++ b/file',
             b'@@ -1 +1 @@', b' leading space', b'\ttab', b'+', b'-', b' ',
             b'\\ No newline at end of file', b'#.change:', b'diff --git a b',
             b'\xc3\xa9 caf\xc3\xa9', b'tail ', b'@@', b'form\x0cfeed', b'vt\x0bx',
-            b'fs\x1cx', b'lone\rcr', b'y' * 1500, b'cr at end\r', b'nul\x00byte']
+            b'fs\x1cx', b'lone\rcr', b'y' * 1500, b'cr at end\r', b'nul\x00byte', b'sub\x1az', b'\x1a']
 GARBAGE = [b'@@ -4 +4 @@@', b'@@ -4,2 +4,2 @@x', b'@@ -1 +1 @@\t',
            b'@@ -1 +1 @@@ ctx', b'diff --git a/x b/x', b'index 123..456 100644', b'--- a/x',
            b'+++ b/x', b'', b'Index: x', b'=====', b'@@ not a header @@',
